@@ -427,6 +427,10 @@ def impl_expandlib(case, scratch):
     try:
         for name, body, pre in case["lib"]:
             ctx.add_page("Template:" + name, 10, body, need_pre_expand=bool(pre))
+        if case.get("modules"):
+            ctx.add_page("Module:ustring:ustring", 828, USTRING_STUB, model="Scribunto")
+            for mname, src in case["modules"].items():
+                ctx.add_page("Module:" + mname, 828, src, model="Scribunto")
         ctx.db_conn.commit()
         lib_ast = []
         for name, body, pre in case["lib"]:
@@ -441,6 +445,9 @@ def impl_expandlib(case, scratch):
 
         def tfn(name, ht):
             calls.append(["t", name, [[k, v] for k, v in ht.items()]])
+            if name in (o.get("tfn_reenter") or {}):
+                # a hook may use the context itself
+                ctx.expand(o["tfn_reenter"][name])
             r = o.get("tfn_ret", {}).get(name)
             return r
 
@@ -502,6 +509,9 @@ def impl_c15(case, scratch):
         ctx.add_page("Template:echo", 10, "{{{1}}}")
         ctx.add_page("Template:a", 10, "A[{{{1|}}}]")
         ctx.add_page("Template:two", 10, "{{{1}}}-{{{2|}}}")
+        # templates whose own body holds nowiki content
+        ctx.add_page("Template:lit", 10, "L<nowiki>[[x]] {{y|z}} ''q''</nowiki>R")
+        ctx.add_page("Template:lit2", 10, "<nowiki>* {{{1}}} <b></nowiki>{{{1|d}}}")
         ctx.db_conn.commit()
         _c15_ctx = ctx
     ctx = _c15_ctx
